@@ -173,6 +173,8 @@ def judge(o, go, m):
             return "violation", "instance %d: %s (result %s)" % (i, e, g1["text"])
         if canon(from_tagged(m1["value"])) != canon(a1):
             return "violation", "instance %d: real package %s, model %r" % (i, g1["text"], from_tagged(m1["value"]))
+    if go.get("alias_free") is False:
+        return "violation", "ApplyDefaults on one Resolved depends on what callers did to earlier results (a shared container): %s" % go.get("alias_detail")
     # ValidateDefaults
     if go.get("validateDefaults") != mo.get("validateDefaults"):
         return "violation", "ValidateDefaults: real package %s, model %s" % (go.get("validateDefaults"), mo.get("validateDefaults"))
